@@ -862,6 +862,74 @@ func init() {
 		})
 	})
 	imported("C14", "C14.R11", "a gaussian trigger built from accepted input has a finite, non-negative rate (shared with C11.R6)", "C11", []string{"C11.R6"}, func(o core.Obligation) bool { return !strings.Contains(o.Key, "default-only-when-empty") }, 1)
+	extra["C11"] = append(extra["C11"], func(c *core.Ctx, r *core.Report) {
+		rule(r, "C11.R9", "the list of weights holds exactly the weights given: a []float64 of the gaussian package that is made with a non-zero length and filled by index has its element stored on every pass of the filling loop (a skipped entry would stay 0, i.e. a window with no load and a wrong mean weight); lists built by append are exact by construction", func() {
+			n := 0
+			for _, fn := range c.AllFuncs {
+				if core.RelPkg(fn) != "internal/trigger/gaussian" {
+					continue
+				}
+				an.Instrs(fn, func(in ssa.Instruction) {
+					mk, ok := in.(*ssa.MakeSlice)
+					if !ok {
+						return
+					}
+					sl, isSl := mk.Type().Underlying().(*types.Slice)
+					if !isSl {
+						return
+					}
+					if b, isB := sl.Elem().Underlying().(*types.Basic); !isB || b.Info()&types.IsFloat == 0 {
+						return
+					}
+					if k, isK := mk.Len.(*ssa.Const); isK && k.Value != nil && k.Int64() == 0 {
+						n++
+						r.OK(core.FuncName(fn)+"#weights-list", an.Pos(c, in), "made empty and appended to: holds exactly what was parsed")
+						return
+					}
+					n++
+					// stores through an index into this slice, inside a loop
+					okAll, found := true, false
+					an.Instrs(fn, func(x ssa.Instruction) {
+						st, isSt := x.(*ssa.Store)
+						if !isSt {
+							return
+						}
+						ia, isIA := st.Addr.(*ssa.IndexAddr)
+						if !isIA || stripAllocs(ia.X) != ssa.Value(mk) {
+							return
+						}
+						_, head := an.NaturalLoopOf(st.Block())
+						if head == nil {
+							return
+						}
+						found = true
+						// from the loop's body entry to the next pass: the store happens exactly once (paths leaving the
+						// function — a parse error — do not matter)
+						for _, succ := range head.Succs {
+							if loop, _ := an.NaturalLoopOf(st.Block()); loop == nil || !loop[succ] {
+								continue
+							}
+							for _, e := range an.PathCountUntil(succ.Instrs[0], func(y ssa.Instruction) an.Interval {
+								if y == ssa.Instruction(st) {
+									return an.Interval{Lo: 1, Hi: 1}
+								}
+								return an.Interval{}
+							}, map[*ssa.BasicBlock]bool{head: true}) {
+								if _, isRet := e.Instr.(*ssa.Return); isRet {
+									continue
+								}
+								if e.Count.Lo != 1 || e.Count.Hi != 1 {
+									okAll = false
+								}
+							}
+						}
+					})
+					r.Check(found && okAll, core.FuncName(fn)+"#weights-list", an.Pos(c, in), "pre-sized and filled on every pass", "a list of weights is made with a fixed length and some pass of the filling loop stores nothing (an entry that is skipped stays 0): that window requests nothing and the mean weight is computed over the wrong number of windows")
+				})
+			}
+			r.Floor("float lists built in the gaussian package", n, 1)
+		})
+	})
 	extra["C13"] = append(extra["C13"], func(c *core.Ctx, r *core.Report) {
 		rule(r, "C13.R5", "a stage without any jitter setting runs with zero jitter (the identity): the value a validator allocates for a missing jitter is the constant 0; and every Calculate*Rate applies jitter to the per-cycle rate before the distribution spreads it (so that the carry advances once per cycle)", func() {
 			n := 0
